@@ -455,6 +455,12 @@ def call_method(ip, st, recv, name, args, kwargs):
             return r
         if cls is object and name == "__init__":
             return None
+        if cls is type and name == "__init__" and len(args) == 3 and not kwargs:
+            # super().__init__(name, bases, namespace) in a metaclass whose next __init__ in the MRO is type's:
+            # CPython's type_init (Objects/typeobject.c) only validates the argument count (1 or 3 positional
+            # arguments) and returns -- the class object was completed by type.__new__; it reads neither `bases`
+            # nor the namespace.  (cross-check: static check `type-init-is-a-no-op`, contracts/C14_metasignals.py)
+            return None
         raise Unsupported(f"super().{name} resolved to {cls.__name__}")
     if isinstance(recv, SObj) and recv.base_list:
         return list_method(ip, st, recv.fields[recv.base_list], name, args, kwargs)
